@@ -140,6 +140,16 @@ def _run_in_child(spec):
             with StepBudget(spec['budget'] * max(1, spec['n_files'])) as sb:
                 res = WriteLAS.convert_dir_or_file_to_las(in_dir, out_dir, scenario['recurse'], *args, fn)
             out['steps'] = sb.count
+        elif run['mode'] == 'realpool':
+            # stub-fidelity self-test only: the real multiprocessing.Pool, real scheduling (results must not depend on it)
+            import multiprocessing
+            try:
+                res = WriteLAS.convert_dir_or_file_to_las_multiprocessing(in_dir, out_dir, scenario['recurse'], *args, run['jobs'], fn)
+            finally:
+                for ch in multiprocessing.active_children():
+                    ch.terminate()
+                    ch.join(5)
+            out['steps'] = 0
         elif run['mode'] == 'pool':
             shim = simpool.MultiprocessingShim(sim)
             WriteLAS.multiprocessing = shim
